@@ -167,6 +167,95 @@ def add_flat(cr, D, zb, fam="O02.flat", one_key=None):
                 return v.subst(env3).addr(digits(pos, hs, [P.const(0)] * D)) * viewops.ELEM
             return {(0, "it=jt(other range)+c:deref"): atw(A("b") + A("c")), (1, "it=jt(other range)+c:pos"): A("b") + A("c")}
         cr.add("%s.xassign(D=%d)" % (fam, D), fam, D, ["a", "b", "c"] + ["h%d" % i for i in range(D)], body3, wants3, cases=[dict(env3, __signs=sg3)])
+    # ++ / -- mixed with -= / [] / - at the end position: the end reached by ++ from the last element is the same position as end(), so
+    # subtracting from it must land where subtracting from end() lands (the stepping operators and the jumping operators share one state)
+    if D <= 2 and one_key is None:
+        envz = {"z%d" % i: 1 + A("y%d" % i) for i in range(D)}
+        sgz = {"y%d" % i: NONNEG for i in range(D)}
+        sgz["b"] = POS
+        size = prod([1 + A("y%d" % i) for i in range(D)])
+        body4 = """
+	auto&& es = v.elements();
+	{ auto it = es.end(); --it; ++it; out[0] = it - es.begin(); out[1] = (it == es.end()) ? 1 : 0; it -= b; out[2] = eaddr(*it, base); out[3] = it - es.begin(); }
+	{ auto it = es.end(); --it; ++it; out[4] = eaddr(it[0 - b], base); out[5] = eaddr(*(it - b), base); }
+	{ auto it = es.end(); --it; out[6] = eaddr(*it, base); it += 1; it -= b; out[7] = eaddr(*it, base); }
+"""
+
+        def wants4(case, env_):
+            def atz(pos):
+                return v.subst(envz).addr(digits(pos, [1 + A("y%d" % i) for i in range(D)], fs)) * viewops.ELEM
+            last = v.subst(envz).addr([f + A("y%d" % i) for i, f in enumerate(fs)]) * viewops.ELEM
+            return {(0, "++(--end):pos"): size, (1, "++(--end)==end"): P.const(1), (2, "++(--end)-=b:deref"): atz(size - b), (3, "++(--end)-=b:pos"): size - b,
+                    (4, "++(--end)[-b]"): atz(size - b), (5, "*(++(--end)-b)"): atz(size - b), (6, "*--end"): last, (7, "(--end)+=1-=b:deref"): atz(size - b)}
+        cr.add("%s.endstep(D=%d)" % (fam, D), fam, D, ["b"], body4, wants4, cases=[dict(envz, __signs=sgz)])
+    # the iterator's own ++ / -- (pre and post forms) at a position given by its digits, one case per carry / borrow pattern, followed by a jump:
+    # decides that stepping moves the iterator's tuple with the iterator's extents and its linear position by exactly one (O02.canon decides the
+    # successor function itself)
+    if D <= 3 and one_key is None:
+        for mode in ("next", "prev"):
+            for pat in itertools.product([False, True], repeat=D):
+                if mode == "prev" and all(pat):
+                    continue            # position 0: --begin() leaves the range
+                envs, sg, dg, zz = {}, {"b": POS}, [], []
+                for i in range(D):
+                    if mode == "next":
+                        if pat[i]:      # digit at its maximum
+                            envs["z%d" % i] = 1 + A("y%d" % i)
+                            dg.append(A("y%d" % i))
+                            sg["y%d" % i] = NONNEG
+                        else:
+                            envs["z%d" % i] = A("d%d" % i) + 2 + A("t%d" % i)
+                            dg.append(A("d%d" % i))
+                            sg["d%d" % i] = NONNEG
+                            sg["t%d" % i] = NONNEG
+                    else:
+                        if pat[i]:      # digit at its minimum
+                            envs["z%d" % i] = 1 + A("y%d" % i)
+                            dg.append(P.const(0))
+                            sg["y%d" % i] = NONNEG
+                        else:
+                            envs["z%d" % i] = 2 + A("u%d" % i) + A("t%d" % i)
+                            dg.append(1 + A("u%d" % i))
+                            sg["u%d" % i] = NONNEG
+                            sg["t%d" % i] = NONNEG
+                    zz.append(envs["z%d" % i])
+                pos = P.const(0)
+                for i in range(D):
+                    pos = pos + dg[i] * prod(zz[i + 1:])
+                envs["a"] = pos
+                vsub = v.subst(envs)
+                step = 1 if mode == "next" else -1
+                op_pre, op_post = ("++it", "jt++") if mode == "next" else ("--it", "jt--")
+                at_end = mode == "next" and all(pat)
+
+                def atp(p_, vsub=vsub, zz=zz):
+                    return vsub.addr(digits(p_, zz, fs)) * viewops.ELEM
+                # the expected digits after the step, written out per pattern (not through a division)
+                res, carry = [None] * D, True
+                for i in reversed(range(D)):
+                    if carry and pat[i]:
+                        res[i] = (P.const(0) if mode == "next" else zz[i] - 1)
+                    elif carry:
+                        res[i] = dg[i] + step
+                        carry = False
+                    else:
+                        res[i] = dg[i]
+                stepped = vsub.addr([r_ + f for r_, f in zip(res, fs)]) * viewops.ELEM
+                if at_end:
+                    bodys = ("auto&& es = v.elements(); auto it = es.begin() + a; %s; out[0] = it - es.begin(); out[1] = (it == es.end()) ? 1 : 0; "
+                             "out[2] = eaddr(*(it - b), base); { auto jt = es.begin() + a; %s; out[3] = (jt == es.end()) ? 1 : 0; out[4] = eaddr(jt[0 - b], base); }"
+                             % (op_pre, op_post))
+                    w = {(0, "pos"): pos + 1, (1, "==end"): P.const(1), (2, "*(it-b)"): atp(pos + 1 - b), (3, "post:==end"): P.const(1),
+                         (4, "post:it[-b]"): atp(pos + 1 - b)}
+                else:
+                    bodys = ("auto&& es = v.elements(); auto it = es.begin() + a; %s; out[0] = eaddr(*it, base); out[1] = it - es.begin(); "
+                             "out[2] = eaddr(*(it - b), base); out[3] = eaddr(it[b], base); "
+                             "{ auto jt = es.begin() + a; %s; out[4] = eaddr(*jt, base); out[5] = jt - es.begin(); jt += b; out[6] = eaddr(*jt, base); }"
+                             % (op_pre, op_post))
+                    w = {(0, "deref"): stepped, (1, "pos"): pos + step, (2, "*(it-b)"): atp(pos + step - b), (3, "it[b]"): atp(pos + step + b),
+                         (4, "post:deref"): stepped, (5, "post:pos"): pos + step, (6, "post:+=b"): atp(pos + step + b)}
+                name = ("atmax=" if mode == "next" else "atmin=") + "".join("1" if p_ else "0" for p_ in pat)
+                cr.add("%s.step.%s(D=%d)" % (fam, mode, D), fam, D, ["a", "b"], bodys, w, cases=[dict(envs, __signs=sg, __name=name)])
     # front / back with sizes z = 1 + y (so that z-1 >= 0 is visible to the sign analysis)
     body2 = "auto&& es = v.elements(); out[0] = eaddr(es.front(), base); out[1] = eaddr(es.back(), base); out[2] = eaddr(*es.begin(), base);"
     env = {"z%d" % i: 1 + A("y%d" % i) for i in range(D)}
